@@ -49,6 +49,7 @@ class FieldTaint:
         self.env = {}
         self.extra_roots = set(extra_roots or ())
         self.init_env = dict(init_env or {})
+        self.project_slots = set()      # child-aggregator fields: `self.slot.attr` is only a projection ("part") of the child
         self._fix()
 
     # ---- properties -> stored attributes
@@ -88,7 +89,11 @@ class FieldTaint:
                 if pf is not None:
                     return frozenset((p, f, fl, False) for (f, fl) in pf)
                 return frozenset((p, e.attr, "full", False) for _ in [0])
-            return self.L(e.value, env)
+            base = self.L(e.value, env)
+            if self.project_slots and any(f in self.project_slots and fl == "full" for (_, f, fl, _) in base):
+                # one attribute of a child aggregator (`self.denominator.entries`) is not the child
+                return frozenset((p, f, ("part" if (f in self.project_slots and fl == "full") else fl), z) for (p, f, fl, z) in base)
+            return base
         if isinstance(e, ast.Subscript):
             base = self.L(e.value, env)
             sl = e.slice
